@@ -916,10 +916,13 @@ func (interp *Interpreter) cfg(root *node, sc *scope, importPath, pkgName string
 					if sym, _, ok := sc.lookup(dest.ident); ok {
 						sym.kind = constSym
 					}
-					if childPos(n) == len(n.anc.child)-1 {
-						sc.iota = 0
-					} else {
-						sc.iota++
+					if i == n.nleft-1 {
+						// All the constants of the specification are defined.
+						if childPos(n) == len(n.anc.child)-1 {
+							sc.iota = 0
+						} else {
+							sc.iota++
+						}
 					}
 				}
 			}
